@@ -1224,7 +1224,7 @@ func runLogs(k *vf.Case) {
 
 func main() {
 	vf.Main("C13", "exploration", func(c *vf.Ctx) {
-		c.Rule = "batches of 0-200 items over 1-5 resources x 1-5 scopes (shared scopes, scopes differing only in attributes, empty scope/resource): SpanStubs (all kinds, remote/local/absent parents, 0-40 events, links with tracestate, arbitrary dropped counts incl. negative and MaxInt32), hand-built ResourceMetrics (gauge/sum/histogram/exponential x int64/float64 x temporality, empty point lists, absent min/max, extreme integers, NaN/Inf), log records from logtest.RecordFactory (all value kinds nested 3 deep, bytes, empty map, dropped counts); timestamps incl. zero time, 1970, pre-1970, 2262 boundary; every batch goes through the real gRPC and HTTP exporters (gzip on/off) to loopback collectors, is decoded off the wire and compared item by item with an independent projection of the input; Zipkin JSON compared for ids, name, kind, start and duration; resources that are nothing but a schema URL. distinct = distinct (signal, batch size class, resources, scopes) signatures"
+		c.Rule = "batches of 0-200 items over 1-5 resources x 1-5 scopes (shared scopes, scopes differing only in attributes, empty scope/resource): SpanStubs (all kinds, remote/local/absent parents, 0-40 events, links with tracestate, arbitrary dropped counts incl. negative and MaxInt32), hand-built ResourceMetrics (gauge/sum/histogram/exponential x int64/float64 x temporality, empty point lists, absent min/max, extreme integers, NaN/Inf), log records from logtest.RecordFactory (all value kinds nested 3 deep, bytes, empty map, dropped counts); timestamps incl. zero time, 1970, pre-1970, 2262 boundary; every batch goes through the real gRPC and HTTP exporters (gzip on/off) to loopback collectors, is decoded off the wire and compared item by item with an independent projection of the input; Zipkin JSON compared for ids, name, kind, start and duration; resources that are nothing but a schema URL; scopes that are nothing but a schema URL. distinct = distinct (signal, batch size class, resources, scopes) signatures"
 		c.Assume = []string{"resource identity is the attribute set; a batch never holds two resources with equal attributes but different schema URLs", "strings are valid UTF-8 (protobuf rejects anything else)", "times outside [1970, 2262] clamp to 0 as documented"}
 		otel.SetErrorHandler(otel.ErrorHandlerFunc(func(error) {}))
 		otel.SetLogger(logr.Discard())
